@@ -725,8 +725,23 @@ class Exec:
                 if k == 'adt':
                     # field types are not available generically; infer for the newtype-array case
                     fields = []
-                    for fv in val['fields']:
-                        fields.append(self._conv_untyped(fv))
+                    decl = None
+                    try:
+                        decl = self.pdb.adt(name)['variants'][0]['fields']
+                    except Exception:
+                        decl = None
+                    import re as _re
+                    for i_, fv in enumerate(val['fields']):
+                        ts = decl[i_]['ty_s'].strip() if decl and i_ < len(decl) else ''
+                        m_ = _re.match(r'\[(\w+); \d+\]$', ts)
+                        if isinstance(fv, bool):
+                            fields.append(C(1 if fv else 0, 'bool'))
+                        elif isinstance(fv, int) and ts in INT_BITS:
+                            fields.append(C(fv, ts))
+                        elif isinstance(fv, list) and m_ and m_.group(1) in INT_BITS:
+                            fields.append(self._conv_untyped(fv, m_.group(1)))
+                        else:
+                            fields.append(self._conv_untyped(fv))
                     return agg(('adt', name, 0), fields)
             if 'opaque' in val:
                 return mk('opaque', val['opaque'])
